@@ -34,4 +34,16 @@ theorem C09_coherent (c : Cfg R) (check : Bool) (x : Nat → R) (s s' : St R)
     (h : merit c check x s = (.ok (), s')) : Coh c s' :=
   (merit_coh c check x s s' h).1
 
+/-- unit weights (`k ↦ (k / w) * w` is the identity): the restore is bit-exact -/
+theorem C09_restore_unit_weights (c : Cfg R) (its : List (Iter R)) (tb : Option Nat) (s s' : St R) (e : Err)
+    (r0 : Row R) (rest : List (Row R)) (hlog : s.log = r0 :: rest) (hres : c.restoreIfFail = true)
+    (hunit : ∀ j x, c.mulW j (c.divW j x) = x)
+    (h : solve c its tb s = (.error e, s')) :
+    s'.vAct = r0.vAct ∧ s'.tAct = r0.tAct ∧ ∀ j, s'.knobs j = r0.knobs j := by
+  obtain ⟨h1, h2, h3⟩ := solve_restore c its tb s s' e r0 rest hlog hres h
+  refine ⟨h1, h2, fun j => ?_⟩
+  rcases h3 j with hj | hj
+  · exact hj
+  · rw [hj, hunit]
+
 end Properties.C09
